@@ -211,6 +211,34 @@ class Select:
 
     subquery = None  # callable(expression node, keys) -> Val or None, for IN (SELECT ..) / EXISTS leaves
 
+    def roles(self):
+        """alias -> role name: the table name for its first occurrence in FROM order, `table#n` for the n-th.  Contracts
+        name the rows of a statement by role, so that renaming an alias in the SQL text does not matter."""
+        seen, out = {}, {}
+        for a, tb in self.aliases.items():
+            seen[tb] = seen.get(tb, 0) + 1
+            out[a] = tb if seen[tb] == 1 else f"{tb}#{seen[tb]}"
+        return out
+
+    def by_alias(self, ks):
+        """A key assignment given by alias or by role, as one by alias."""
+        roles = self.roles()
+        out = {}
+        for a in self.aliases:
+            if a in ks:
+                out[a] = ks[a]
+            elif roles[a] in ks:
+                out[a] = ks[roles[a]]
+        return out
+
+    def with_roles(self, keys):
+        """The key assignment readable by alias and by role."""
+        out = dict(keys)
+        for a, r in self.roles().items():
+            if a in keys:
+                out.setdefault(r, keys[a])
+        return out
+
     def condition(self, db, keys, args) -> tm.T:
         """exists(keys) and ON and WHERE for the key assignment."""
         tr = self.translator(db, keys, args)
@@ -262,9 +290,26 @@ def _key_arrays(cu, s):
     ka = getattr(cu, "key_arrays", None)
     if ka is None:
         c = cur()
-        ka = {a: c.fresh(c.fresh_name(f"q{cu.ordinal}.keys.{a}"), tm.arr(INT, INT)) for a in s.aliases}
+        roles = s.roles()
+        by_alias = {a: c.fresh(c.fresh_name(f"q{cu.ordinal}.keys.{roles[a]}"), tm.arr(INT, INT)) for a in s.aliases}
+        ka = _AliasAndRole(by_alias)
+        ka.alias_names = list(s.aliases)
+        for a, r in roles.items():  # readable by role as well (contracts name rows by role)
+            dict.__setitem__(ka, r, by_alias[a])
         cu.key_arrays = ka
     return ka
+
+
+class _AliasAndRole(dict):
+    """Key arrays by alias and by role; iteration yields the aliases only."""
+
+    alias_names = ()
+
+    def items(self):
+        return [(a, self[a]) for a in self.alias_names]
+
+    def __iter__(self):
+        return iter(self.alias_names)
 
 
 def scalar_lookup(e, select, keys, db=None, args=None):
@@ -312,7 +357,7 @@ def query(prefix, rowspec, witness=None, none_keys=None, always_row=False, compl
         f, keys = s.row_fact(cu.db, row, args, keys=keys)
         if witness is not None:
             c.pc.append(f)
-            witness(keys, args, row)
+            witness(s.with_roles(keys), args, row)
             return True
         return sym.wrap_bool(f)
 
@@ -323,7 +368,7 @@ def query(prefix, rowspec, witness=None, none_keys=None, always_row=False, compl
         s = Select(cu.sql)
         fs = []
         for ks in none_keys(cu.args):
-            keys = dict(ks)
+            keys = s.by_alias(ks)
             for a in s.aliases:  # aliases the contract does not name: any existing row
                 if a not in keys:
                     raise sqlfront.SQLError(f"no-row fact: no key given for alias {a}")
@@ -341,6 +386,7 @@ def query(prefix, rowspec, witness=None, none_keys=None, always_row=False, compl
         ka = _key_arrays(cu, s)
         for ks in complete_keys(cu.args):
             pos = c.fresh(c.fresh_name(f"q{cu.ordinal}.pos"), INT)
+            ks = s.by_alias(ks)
             c.pc.append(tm.Implies(s.condition(cu.db, dict(ks), cu.args),
                                    tm.And(tm.Le(tm.mk_int(0), pos), tm.Lt(pos, q.length),
                                           *[tm.Eq(tm.Select(ka[a], pos, INT), ks[a]) for a in s.aliases])))
